@@ -1,5 +1,41 @@
 (** * Inv_threads_merge: C18 for the interleaving model of merge! (Threads.v, section
-      MergeThreads), over ALL schedules. *)
+      MergeThreads), over ALL schedules.
+
+    For every n >= 1, all queues, all endings with at most one failing member among the
+    members 0..n-1, and every state reachable by any interleaving of [mg_step]:
+
+    - [merge_threads_greet_once]               the sink is greeted at most once and nothing is
+                                               delivered before the greeting begins;
+    - [merge_threads_one_terminal]             at most one Terminate/Error begins at the sink;
+    - [merge_threads_order]                    each member's data in its own order, nothing forged,
+                                               nothing twice ([merge_threads_delivered]: delivered
+                                               ++ remaining queue = the member's queue);
+    - [merge_threads_completion_after_data]    [scan_term] reports nothing (no completion during a
+                                               data delivery, no data after a terminal message),
+                                               and once [end_count] is full every member is in
+                                               MgInTerm or MgFinished;
+    - [merge_threads_no_panic];
+    - [merge_threads_final]                    on every final state [merge_check] is empty, with or
+                                               without a failing member;
+    - [run_full_reach]                         what the driver runs is reachable.
+
+    Method: [mg_step] is restated as a relation on explicit records ([mstep], [mstep_of]); four
+    inductive invariants: [TI] (per thread, by program counter), [GE] (ended => the failing
+    member is past its store), [GI] (end_count = number of members that counted themselves,
+    characterised without ghost state as "pc in {MgInTerm, MgFinished}, ending Terminate, never
+    told to stop") and [TRI] (the trace monitors, as functions of the state).
+
+    Findings.
+    - In this model no data delivery begins after the Error began: the failing member's store,
+      the Terminate calls to all siblings whose slot is set and the begin of the Error delivery
+      are one step, a sibling tests "told to stop" in the same step in which its next delivery
+      begins, and a sibling whose slot is not yet set reads [ended = true] next.  So
+      [TvAfterTerminal] is unreachable and the full check holds in the failing case too (also
+      confirmed by [vm_compute] over all 2^14 schedule prefixes of n=2, qs 0 = [VN 1; VN 3],
+      fins 1 = FinErr 101).  What CAN happen, and what [merge_check] does not flag, is that the
+      Error begins while a sibling's data delivery is still in progress ([error_during_data]).
+    - The hypothesis "at most one failing member" is necessary: with two failing members both
+      deliver their Error ([two_failures_two_errors]). *)
 
 From CB Require Import Threads ThreadSpec.
 
@@ -201,9 +237,12 @@ Qed.
 
 (** ** State invariants *)
 
+Ltac pw j t :=
+  destruct (Nat.eq_dec j t) as [->|?];
+  [rewrite ?upd_same | rewrite ?upd_other by assumption].
+
 Section MergeInv.
   Variable n : nat.
-  Variable qs : nat -> list val.
   Variable fins : nat -> final.
 
   (** per-thread invariant, as a function of the components it reads *)
@@ -227,27 +266,737 @@ Section MergeInv.
   Definition TI (s : mg_state) : Prop :=
     forall j, TIc (mgs_start s) (mgs_ended s) j (mgs_tbs s j) (mgs_stopped s j) (mgs_th s j).
 
-  Lemma TI_init : TI (mg_init n qs fins).
+  Lemma TI_init qs : TI (mg_init n qs fins).
   Proof.
     intros j. unfold TIc. cbn -[Nat.ltb].
     destruct (Nat.ltb_spec j n); cbn; repeat split; auto; try congruence; try lia.
   Qed.
-
-  Ltac pw j t :=
-    destruct (Nat.eq_dec j t) as [->|?];
-    [rewrite ?upd_same | rewrite ?upd_other by assumption].
 
   Lemma TI_step s t s' : TI s -> mstep n s t s' -> TI s'.
   Proof.
     intros HTI Hs. revert HTI. destruct Hs; intros HTI; auto.
     all: intros j; pose proof (HTI t) as Ht; pose proof (HTI j) as Hj;
       unfold TIc in *; cbn -[Nat.ltb Nat.eqb] in *.
-    all: try match goal with H : th t = _ |- _ => rewrite H in Ht end; cbn in Ht.
+    all: try match goal with H : _ = Th _ _ _ |- _ => rewrite H in Ht end; cbn in Ht.
     all: try match goal with H : origin _ _ _ _ _ _ |- _ => destruct H end.
     all: try match goal with H : _ \/ _ |- _ => destruct H; subst end.
     all: try match goal with H : forall j, _ = _ |- _ => rewrite H end.
     all: pw j t; cbn -[Nat.ltb Nat.eqb].
-    all: try (destruct (mg_pcv (th j))).
+    all: try (revert Hj; match goal with |- context [match mg_pcv ?x with _ => _ end] => destruct (mg_pcv x) end; intros Hj).
     all: try solve [intuition (try lia; try congruence)].
-  Admitted.
+    all: match goal with
+         | Hne : ?j <> ?t |- context [?sp ?j || (?j <? n) && negb (?j =? ?t) && ?tb ?j] =>
+             rewrite (proj2 (Nat.eqb_neq j t) Hne);
+             destruct (Nat.ltb_spec j n); destruct (tb j) eqn:?; destruct (sp j) eqn:?
+         end; cbn.
+    all: try solve [intuition (try lia; try congruence)].
+  Qed.
 End MergeInv.
+
+Section MergeInv2.
+  Variable n : nat.
+  Variable fins : nat -> final.
+  Hypothesis amo : forall i j e1 e2, i < n -> j < n -> fins i = FinErr e1 -> fins j = FinErr e2 -> i = j.
+
+  Definition GE (s : mg_state) : Prop :=
+    mgs_ended s = true ->
+    exists f e, f < n /\ fins f = FinErr e /\
+      (mg_pcv (mgs_th s f) = MgInErr \/ mg_pcv (mgs_th s f) = MgFinished).
+
+  Lemma GE_init qs : GE (mg_init n qs fins).
+  Proof. unfold GE; cbn; discriminate. Qed.
+
+  Lemma GE_step s t s' : TI n fins s -> GE s -> mstep n s t s' -> GE s'.
+  Proof.
+    intros HTI HGE Hs. revert HTI HGE. destruct Hs; intros HTI HGE; auto.
+    all: unfold GE in *; cbn in *; intros Hen; try discriminate.
+    11: { exists t, e. pose proof (HTI t) as Ht. unfold TIc in Ht; cbn in Ht. rewrite H in Ht; cbn in Ht.
+          rewrite upd_same; cbn. intuition; try congruence.
+          destruct (Nat.lt_ge_cases t n); auto. exfalso. intuition congruence. }
+    all: destruct (HGE Hen) as (f0 & e0 & Hf & He & Hpc); exists f0, e0; split; [|split]; auto.
+    all: pw f0 t; auto; cbn.
+    all: match goal with H : _ = Th _ _ _ |- _ => rewrite H in Hpc end; cbn in Hpc.
+    all: try match goal with H : origin _ _ _ _ _ _ |- _ => destruct H end.
+    all: try match goal with H : _ = MgInTerm \/ _ |- _ => destruct H; subst end.
+    all: try solve [destruct Hpc; try discriminate; auto].
+  Qed.
+
+  Definition pc_done (pc : mg_pc) : bool :=
+    match pc with MgInTerm | MgFinished => true | _ => false end.
+  Definition fin_term (f : final) : bool := match f with FinTerm => true | _ => false end.
+  Definition countedc (th : nat -> mg_thread) (stp : nat -> bool) (j : nat) : bool :=
+    pc_done (mg_pcv (th j)) && fin_term (mg_fin (th j)) && negb (stp j).
+  Definition counted (s : mg_state) : nat -> bool := countedc (mgs_th s) (mgs_stopped s).
+  Definition GI (s : mg_state) : Prop := mgs_endc s = cnt (counted s) n.
+
+  Lemma GI_init qs : 1 <= n -> GI (mg_init n qs fins).
+  Proof.
+    intros Hn. unfold GI. cbn -[Nat.ltb].
+    transitivity (cnt (fun _ => false) n).
+    - clear. induction n; cbn; auto.
+    - apply cnt_ext. intros j Hj. unfold counted, countedc. cbn -[Nat.ltb].
+      destruct (Nat.ltb_spec j n); [reflexivity|lia].
+  Qed.
+
+  Lemma GI_step s t s' : TI n fins s -> GI s -> mstep n s t s' -> GI s'.
+  Proof.
+    intros HTI HGI Hs. revert HTI HGI. destruct Hs; intros HTI HGI; auto.
+    all: unfold GI, counted in *; cbn -[Nat.ltb Nat.eqb] in *.
+    all: pose proof (HTI t) as Ht; unfold TIc in Ht; cbn in Ht.
+    all: match goal with H : _ = Th _ _ _ |- _ => rewrite H in Ht end; cbn in Ht.
+    all: assert (Htn : t < n) by (destruct (Nat.lt_ge_cases t n); auto; exfalso;
+           try match goal with H : origin _ _ _ _ _ _ |- _ => destruct H end;
+           try match goal with H : _ \/ _ |- _ => destruct H; subst end; intuition congruence).
+    all: rewrite HGI; clear HGI.
+    all: first [ apply cnt_ext; intros j Hj | symmetry; apply cnt_flip with (t := t); [assumption|intros j Hj Hne| |] ].
+    all: unfold countedc; cbn.
+    all: try (pw j t); rewrite ?upd_same; cbn.
+    all: try match goal with H : _ = Th _ _ _ |- _ => rewrite H end; cbn.
+    all: try match goal with H : origin _ _ _ _ _ _ |- _ => destruct H end.
+    all: try match goal with H : _ = MgInTerm \/ _ |- _ => destruct H; subst end.
+    all: cbn.
+    all: try reflexivity.
+    all: try solve [destruct f; cbn; try reflexivity; intuition congruence].
+    all: try solve [destruct (stp t); cbn; rewrite ?andb_false_r; intuition congruence].
+    all: try solve [destruct Ht as (_ & _ & _ & _ & _ & -> & _ & -> & _); reflexivity].
+    pose proof (HTI j) as Hjj; unfold TIc in Hjj; cbn in Hjj.
+    rewrite H0. rewrite (proj2 (Nat.eqb_neq j t)) by auto.
+    destruct (Nat.ltb_spec j n); [|lia]. cbn.
+    destruct (tbs j) eqn:Etb; cbn; [|now rewrite orb_false_r].
+    rewrite orb_true_r. cbn. rewrite andb_false_r.
+    revert Hjj. destruct (mg_pcv (th j)); cbn; try reflexivity; intros Hjj.
+    - intuition congruence.
+    - destruct (mg_fin (th j)) eqn:Ef; cbn; try reflexivity.
+      destruct (stp j) eqn:Es; cbn; try reflexivity. intuition congruence.
+  Qed.
+End MergeInv2.
+
+(** ** Facts about the monitors of ThreadSpec *)
+
+Lemma val_eqb_refl : forall v, val_eqb v v = true.
+Proof.
+  fix IH 1. intros [x|l].
+  - apply Nat.eqb_refl.
+  - cbn. induction l as [|a l IHl]; [reflexivity|]. rewrite (IH a). exact IHl.
+Qed.
+
+Lemma is_prefix_app a b : is_prefix a (a ++ b) = true.
+Proof. induction a; cbn; [reflexivity|]. now rewrite val_eqb_refl. Qed.
+
+Lemma list_val_eqb_refl a : list_val_eqb a a = true.
+Proof. induction a; cbn; [reflexivity|]. now rewrite val_eqb_refl. Qed.
+
+Definition isDE (e : tevent) : bool := match snd e with TBegin (DE _) => true | _ => false end.
+Definition isDT (e : tevent) : bool := match snd e with TBegin DT => true | _ => false end.
+
+#[local] Arguments count : simpl never.
+
+Lemma count_cons A (f : A -> bool) e l : count f (e :: l) = (if f e then 1 else 0) + count f l.
+Proof. unfold count. cbn. destruct (f e); reflexivity. Qed.
+
+Lemma count_cons_t (f : tevent -> bool) (e : tevent) (l : list tevent) :
+  @count tevent f (e :: l) = (if f e then 1 else 0) + @count tevent f l.
+Proof. apply count_cons. Qed.
+
+Lemma count_app A (f : A -> bool) l l' : count f (l ++ l') = count f l + count f l'.
+Proof. unfold count. now rewrite filter_app, app_length. Qed.
+
+Lemma count_rev A (f : A -> bool) l : count f (rev l) = count f l.
+Proof.
+  induction l; cbn; [reflexivity|]. rewrite count_app, !count_cons, IHl. unfold count at 2. cbn. lia.
+Qed.
+
+Lemma existsb_rev A (f : A -> bool) l : existsb f (rev l) = existsb f l.
+Proof.
+  induction l; cbn; [reflexivity|]. rewrite existsb_app, IHl. cbn.
+  rewrite orb_false_r. apply orb_comm.
+Qed.
+
+Lemma count_term_split l : count is_begin_term l = count isDT l + count isDE l.
+Proof.
+  induction l as [|[t [[| | |]| | |]] l IH]; rewrite ?count_cons; cbn; try lia.
+  reflexivity.
+Qed.
+
+Definition not_early (e : tevent) : Prop :=
+  match snd e with TBegin DH => True | TBegin _ => False | _ => True end.
+
+Lemma bgo_snoc l e :
+  before_greet_ok l = true -> 1 <= count is_begin_greet l \/ not_early e ->
+  before_greet_ok (l ++ [e]) = true.
+Proof.
+  induction l as [|[t0 [[| | |]| | |]] l IH]; cbn; intros H Hd; try reflexivity; try discriminate.
+  - destruct Hd as [Hd|Hd]; [unfold count in Hd; cbn in Hd; lia|].
+    destruct e as [t [[| | |]| | |]]; cbn in *; auto; contradiction.
+  - apply IH; auto.
+  - apply IH; auto.
+  - apply IH; auto.
+Qed.
+
+Definition ev_data (t : nat) (e : tevent) : list val :=
+  match e with (t', TBegin (DD v)) => if Nat.eqb t t' then [v] else [] | _ => [] end.
+
+Lemma delivered_snoc t l e : delivered_by t (l ++ [e]) = delivered_by t l ++ ev_data t e.
+Proof. unfold delivered_by. rewrite flat_map_app. cbn. now rewrite app_nil_r. Qed.
+
+Fixpoint scan_open (o : nat -> bool) (l : list tevent) : nat -> bool :=
+  match l with
+  | [] => o
+  | (t, TBegin (DD _)) :: l' => scan_open (upd o t true) l'
+  | (t, TEnd) :: l' => scan_open (upd o t false) l'
+  | _ :: l' => scan_open o l'
+  end.
+
+Fixpoint scan_seen (b : bool) (l : list tevent) : bool :=
+  match l with
+  | [] => b
+  | (_, TBegin DT) :: l' | (_, TBegin (DE _)) :: l' => scan_seen true l'
+  | _ :: l' => scan_seen b l'
+  end.
+
+Lemma scan_term_app l : forall o b l',
+  scan_term o b (l ++ l') = scan_term o b l ++ scan_term (scan_open o l) (scan_seen b l) l'.
+Proof.
+  induction l as [|[t [[| | |]| | |]] l IH]; intros o b l'; cbn [app scan_term scan_open scan_seen];
+    rewrite ?IH, ?app_assoc; reflexivity.
+Qed.
+
+Lemma scan_open_app l : forall o l', scan_open o (l ++ l') = scan_open (scan_open o l) l'.
+Proof.
+  induction l as [|[t [[| | |]| | |]] l IH]; intros o l'; cbn [app scan_open]; rewrite ?IH; reflexivity.
+Qed.
+
+Lemma scan_seen_app l : forall b l', scan_seen b (l ++ l') = scan_seen (scan_seen b l) l'.
+Proof.
+  induction l as [|[t [[| | |]| | |]] l IH]; intros b l'; cbn [app scan_seen]; rewrite ?IH; reflexivity.
+Qed.
+
+Lemma existsb_false A (f : A -> bool) l : (forall x, f x = false) -> existsb f l = false.
+Proof. intros H. induction l; cbn; [reflexivity|]. now rewrite H. Qed.
+
+Lemma flat_map_nil A B (f : A -> list B) l : (forall x, In x l -> f x = []) -> flat_map f l = [].
+Proof.
+  induction l; cbn; intros H; [reflexivity|]. rewrite H by auto. rewrite IHl; auto.
+Qed.
+
+(** ** Trace invariant, on the components it reads *)
+
+Definition o0 : nat -> bool := fun _ => false.
+Definition is_indata (pc : mg_pc) : bool := match pc with MgInData => true | _ => false end.
+
+Section TraceInv.
+  Variable n : nat.
+  Variable qs : nat -> list val.
+
+  Record TR (st ec : nat) (en : bool) (th : nat -> mg_thread) (tr : list tevent) : Prop := mkTR {
+    tr_greet : count is_begin_greet tr = (if st =? 0 then 0 else 1);
+    tr_bgo : before_greet_ok (rev tr) = true;
+    tr_de : count isDE tr = (if en then 1 else 0);
+    tr_dt : count isDT tr = (if ec =? n then 1 else 0);
+    tr_panic : existsb is_panic tr = false;
+    tr_deliv : forall j, delivered_by j (rev tr) ++ mg_q (th j) = qs j;
+    tr_scan : scan_term o0 false (rev tr) = [];
+    tr_open : forall j, scan_open o0 (rev tr) j = is_indata (mg_pcv (th j));
+    tr_seen : scan_seen false (rev tr) = true -> en = true \/ ec = n }.
+
+  Ltac snoc :=
+    cbn [rev]; rewrite ?count_cons_t, ?delivered_snoc, ?scan_term_app, ?scan_open_app, ?scan_seen_app;
+    cbn [scan_term scan_open scan_seen ev_data existsb is_begin_greet isDE isDT is_panic snd app];
+    rewrite ?app_nil_r.
+  Ltac tr_split := constructor; [ | | | | | intros jj | | intros jj | ]; snoc.
+
+  (** no event: the threads change, keeping queues and "in a data delivery" *)
+  Lemma TR_silent st ec en th th' tr :
+    TR st ec en th tr ->
+    (forall j, mg_q (th' j) = mg_q (th j) /\ is_indata (mg_pcv (th' j)) = is_indata (mg_pcv (th j))) ->
+    TR st ec en th' tr.
+  Proof.
+    intros [] H. constructor; auto.
+    - intros j. destruct (H j) as [-> _]. auto.
+    - intros j. destruct (H j) as [_ ->]. auto.
+  Qed.
+
+  Lemma TR_st st ec en th tr : TR st ec en th tr -> st <> 0 -> TR (S st) ec en th tr.
+  Proof. intros [] H. constructor; auto. destruct st; [lia|]. exact tr_greet0. Qed.
+
+  Lemma TR_ec st ec en th tr : TR st ec en th tr -> ec < n -> S ec <> n -> TR st (S ec) en th tr.
+  Proof.
+    intros [] H1 H2. constructor; auto.
+    - rewrite tr_dt0. destruct (Nat.eqb_spec ec n), (Nat.eqb_spec (S ec) n); auto; lia.
+    - intros Hs. destruct (tr_seen0 Hs); auto. lia.
+  Qed.
+
+  Lemma TR_up st ec en th tr t j m : TR st ec en th tr -> TR st ec en th ((t, TUp j m) :: tr).
+  Proof.
+    intros []. tr_split; auto.
+    apply bgo_snoc; auto. right. exact I.
+  Qed.
+
+  Lemma TR_qext st ec en th tr t tr1 : TR st ec en th tr -> qext t tr tr1 -> TR st ec en th tr1.
+  Proof. intros H Hq. induction Hq; auto. now apply TR_up. Qed.
+
+  Lemma TR_end st ec en th th' tr t :
+    TR st ec en th tr ->
+    (forall j, j <> t -> th' j = th j) -> mg_q (th' t) = mg_q (th t) ->
+    is_indata (mg_pcv (th' t)) = false ->
+    TR st ec en th' ((t, TEnd) :: tr).
+  Proof.
+    intros [] Ho Hq Hp. tr_split; auto.
+    - apply bgo_snoc; auto. right. exact I.
+    - destruct (Nat.eq_dec jj t) as [->|Hj]; [rewrite Hq|rewrite Ho by auto]; auto.
+    - pw jj t; [now rewrite Hp|]. rewrite Ho by auto. auto.
+  Qed.
+
+  Lemma TR_dh ec en th tr t : TR 0 ec en th tr -> TR 1 ec en th ((t, TBegin DH) :: tr).
+  Proof.
+    intros []. tr_split; auto.
+    - rewrite tr_greet0. reflexivity.
+    - apply bgo_snoc; auto. right. exact I.
+  Qed.
+
+  Lemma TR_dd st ec en th th' tr t v :
+    TR st ec en th tr ->
+    (forall j, j <> t -> th' j = th j) -> mg_q (th t) = v :: mg_q (th' t) ->
+    mg_pcv (th' t) = MgInData -> 1 <= st -> en = false -> ec <> n ->
+    TR st ec en th' ((t, TBegin (DD v)) :: tr).
+  Proof.
+    intros [] Ho Hq Hp Hst Hen Hec. tr_split; auto.
+    - apply bgo_snoc; auto. left. rewrite count_rev, tr_greet0. destruct st; [lia|]. cbn. lia.
+    - destruct (Nat.eqb_spec jj t) as [->|Hj].
+      + rewrite <- app_assoc. cbn. rewrite <- Hq. auto.
+      + rewrite app_nil_r. rewrite Ho by auto. auto.
+    - destruct (scan_seen false (rev tr)) eqn:E; [|now rewrite tr_scan0].
+      destruct (tr_seen0 eq_refl); congruence.
+    - pw jj t; [now rewrite Hp|]. rewrite Ho by auto. auto.
+  Qed.
+
+  Lemma TR_dt st ec en th tr t :
+    TR st ec en th tr -> ec < n -> S ec = n -> 1 <= st ->
+    (forall j, is_indata (mg_pcv (th j)) = false) ->
+    TR st (S ec) en th ((t, TBegin DT) :: tr).
+  Proof.
+    intros [] H1 H2 Hst Ho. tr_split; auto.
+    - apply bgo_snoc; auto. left. rewrite count_rev, tr_greet0. destruct st; [lia|]. cbn. lia.
+    - rewrite tr_dt0. destruct (Nat.eqb_spec ec n), (Nat.eqb_spec (S ec) n); auto; lia.
+    - rewrite tr_scan0. rewrite existsb_false; [reflexivity|].
+      intros j. rewrite tr_open0. apply Ho.
+  Qed.
+
+  Lemma TR_de st ec th tr t e :
+    TR st ec false th tr -> 1 <= st -> TR st ec true th ((t, TBegin (DE e)) :: tr).
+  Proof.
+    intros [] Hst. tr_split; auto.
+    apply bgo_snoc; auto. left. rewrite count_rev, tr_greet0. destruct st; [lia|]. cbn. lia.
+  Qed.
+End TraceInv.
+
+(** ** The trace invariant is inductive *)
+
+Lemma cnt_but_one P k t :
+  t < k -> P t = false -> S (cnt P k) = k -> forall j, j < k -> j <> t -> P j = true.
+Proof.
+  intros Ht HP Hc j Hj Hne.
+  assert (HQ : cnt (upd P t true) k = S (cnt P k)).
+  { apply cnt_flip with (t := t); auto.
+    - intros i _ Hi. now rewrite upd_other.
+    - apply upd_same. }
+  rewrite Hc in HQ. pose proof (cnt_full _ HQ Hj) as H. now rewrite upd_other in H.
+Qed.
+
+Section MergeTrace.
+  Variable n : nat.
+  Variable qs : nat -> list val.
+  Variable fins : nat -> final.
+  Hypothesis amo : forall i j e1 e2, i < n -> j < n -> fins i = FinErr e1 -> fins j = FinErr e2 -> i = j.
+
+  Definition TRI (s : mg_state) : Prop :=
+    TR n qs (mgs_start s) (mgs_endc s) (mgs_ended s) (mgs_th s) (mgs_tr s).
+
+  Lemma TRI_init : 1 <= n -> TRI (mg_init n qs fins).
+  Proof.
+    intros Hn. unfold TRI. cbn -[Nat.ltb]. constructor; cbn -[Nat.ltb]; auto.
+    - destruct n; [lia|reflexivity].
+    - intros j. destruct (j <? n); reflexivity.
+  Qed.
+
+  Lemma not_counted_lt s t : GI n s -> t < n -> counted s t = false -> mgs_endc s < n.
+  Proof.
+    unfold GI. intros -> Ht Hc. pose proof (cnt_le (counted s) n).
+    destruct (Nat.eq_dec (cnt (counted s) n) n) as [e|]; [|lia].
+    rewrite (cnt_full _ e Ht) in Hc. discriminate.
+  Qed.
+
+  Lemma lt_of_pc s t : TI n fins s -> mg_pcv (mgs_th s t) <> MgFinished -> t < n.
+  Proof.
+    intros HTI Hp. destruct (Nat.lt_ge_cases t n); auto.
+    destruct (HTI t) as (_ & _ & _ & H1 & _). exfalso; auto.
+  Qed.
+
+  Lemma store_fresh s t e :
+    TI n fins s -> GE n fins s -> mg_pcv (mgs_th s t) = MgAtEndedStore e -> mgs_ended s = false.
+  Proof.
+    intros HTI HGE Hp. destruct (mgs_ended s) eqn:E; auto.
+    destruct (HGE E) as (f & e0 & Hf & He & Hpc).
+    assert (Ht : t < n) by (apply (lt_of_pc (s := s)); auto; congruence).
+    pose proof (HTI t) as H. unfold TIc in H. rewrite Hp in H.
+    destruct H as (H1 & _ & _ & _ & _ & _ & H2 & _).
+    assert (f = t) by (apply (amo (e1 := e0) (e2 := e)); auto; congruence). subst f.
+    rewrite Hp in Hpc. destruct Hpc; discriminate.
+  Qed.
+
+  Lemma TR_origin st ec en th tr t pc q f st' tr0 :
+    TR n qs st ec en th tr -> th t = Th pc q f -> origin t st tr pc st' tr0 ->
+    TR n qs st' ec en (upd th t (Th MgFinished q f)) tr0.
+  Proof.
+    intros HT Hth Ho. destruct Ho.
+    - eapply TR_silent; [apply TR_st; eauto|].
+      intros j. pw j t; auto. rewrite Hth. auto.
+    - eapply TR_end; eauto.
+      + intros j Hj. now rewrite upd_other.
+      + rewrite upd_same, Hth. reflexivity.
+      + now rewrite upd_same.
+    - eapply TR_end; eauto.
+      + intros j Hj. now rewrite upd_other.
+      + rewrite upd_same, Hth. reflexivity.
+      + now rewrite upd_same.
+  Qed.
+
+  Ltac silent t Hth :=
+    let j := fresh "j" in
+    intros j; pw j t; auto; rewrite ?Hth; cbn; auto.
+
+  Lemma TRI_step s t s' :
+    TI n fins s -> GE n fins s -> GI n s -> TRI s -> mstep n s t s' -> TRI s'.
+  Proof.
+    intros HTI HGE HGI HT Hs. revert HTI HGE HGI HT.
+    destruct Hs; intros HTI HGE HGI HT; auto; unfold TRI in *; cbn [mgs_start mgs_endc mgs_ended mgs_th mgs_tr] in *.
+    - (* load, ended *)
+      eapply TR_silent; [apply TR_up; eauto|]. silent t H.
+    - eapply TR_silent; [eauto|]. silent t H.
+    - eapply TR_silent; [apply TR_dh; eauto|]. silent t H.
+    - (* next: stopped *)
+      eapply TR_origin; eauto.
+    - (* next: data *)
+      pose proof (TR_origin HT H H0) as HT1.
+      pose proof (HTI t) as Ht. unfold TIc in Ht. cbn in Ht. rewrite H in Ht. cbn in Ht.
+      assert (Htn : t < n) by (apply (lt_of_pc (s := St st ec en tbs stp th tr)); auto; cbn; rewrite H; cbn; destruct H0; discriminate).
+      assert (Hec : ec < n).
+      { apply (not_counted_lt (s := St st ec en tbs stp th tr) HGI Htn).
+        unfold counted, countedc. cbn. rewrite H. cbn. destruct H0; reflexivity. }
+      eapply TR_dd; [exact HT1| | | | | |].
+      + intros j Hj. now rewrite !upd_other.
+      + now rewrite !upd_same.
+      + now rewrite upd_same.
+      + destruct H0; intuition lia.
+      + destruct en; auto. destruct H0; intuition congruence.
+      + lia.
+    - eapply TR_silent; [eapply TR_origin; eauto|]. silent t H.
+    - eapply TR_silent; [eapply TR_origin; eauto|]. silent t H.
+    - eapply TR_silent; [eapply TR_origin; eauto|]. silent t H.
+    - (* the last member counts itself: completion *)
+      pose proof (HTI t) as Ht. unfold TIc in Ht. cbn in Ht. rewrite H in Ht. cbn in Ht.
+      assert (Htn : t < n) by (apply (lt_of_pc (s := St st ec en tbs stp th tr)); auto; cbn; rewrite H; cbn; discriminate).
+      eapply TR_silent; [apply TR_dt; eauto; try lia; try tauto|]; [|silent t H].
+      intros j. destruct (Nat.eq_dec j t) as [->|Hj]; [now rewrite H|].
+      destruct (Nat.lt_ge_cases j n) as [Hjn|Hjn].
+      + assert (Hc : counted (St st ec en tbs stp th tr) j = true).
+        { apply cnt_but_one with (k := n) (t := t); auto.
+          - unfold counted, countedc. cbn. now rewrite H.
+          - unfold GI in HGI. cbn in HGI. now rewrite <- HGI. }
+        unfold counted, countedc in Hc. cbn in Hc.
+        destruct (mg_pcv (th j)); cbn in *; auto; discriminate.
+      + destruct (HTI j) as (_ & _ & _ & H2 & _). cbn in H2. now rewrite H2.
+    - (* a member counts itself, not the last *)
+      pose proof (HTI t) as Ht. unfold TIc in Ht. cbn in Ht. rewrite H in Ht. cbn in Ht.
+      assert (Htn : t < n) by (apply (lt_of_pc (s := St st ec en tbs stp th tr)); auto; cbn; rewrite H; cbn; discriminate).
+      assert (Hec : ec < n).
+      { apply (not_counted_lt (s := St st ec en tbs stp th tr) HGI Htn).
+        unfold counted, countedc. cbn. now rewrite H. }
+      eapply TR_silent; [apply TR_ec; eauto|]. silent t H.
+    - (* return from the terminal delivery *)
+      eapply TR_end; eauto.
+      + intros j Hj. now rewrite upd_other.
+      + rewrite upd_same, H. reflexivity.
+      + now rewrite upd_same.
+    - (* the failing member: ended := true, siblings stopped, Error delivered *)
+      assert (Hen : en = false).
+      { apply (store_fresh (s := St st ec en tbs stp th tr) t (e := e)); auto. cbn. now rewrite H. }
+      subst en.
+      pose proof (HTI t) as Ht. unfold TIc in Ht. cbn in Ht. rewrite H in Ht. cbn in Ht.
+      eapply TR_silent; [apply TR_de; [eapply TR_qext; eauto|tauto]|]. silent t H.
+  Qed.
+End MergeTrace.
+
+(** ** The theorems (C18 for merge!, all schedules) *)
+
+Definition at_most_one_err (n : nat) (fins : nat -> final) : Prop :=
+  forall i j e1 e2, i < n -> j < n -> fins i = FinErr e1 -> fins j = FinErr e2 -> i = j.
+
+Lemma at_most_one_err_of_global n fins :
+  (forall i j e1 e2, fins i = FinErr e1 -> fins j = FinErr e2 -> i = j) -> at_most_one_err n fins.
+Proof. intros H i j e1 e2 _ _. apply H. Qed.
+
+Lemma merge_check_unfold n qs fins tr :
+  merge_check n qs fins tr =
+  flagt (Nat.eqb (count is_begin_greet tr) 1) TvGreetCount
+  ++ flagt (before_greet_ok tr) TvBeforeGreet
+  ++ flagt (count is_begin_term tr <=? 1) TvSinkTermTwice
+  ++ flagt (negb (existsb is_panic tr)) TvPanic
+  ++ scan_term o0 false tr
+  ++ flat_map (fun t => flagt (is_prefix (delivered_by t tr) (qs t)) TvOrder) (seq 0 n)
+  ++ (if any_err n fins then
+        flagt (Nat.eqb (count isDE tr) 1 && Nat.eqb (count isDT tr) 0) TvNoTerminal
+      else
+        flat_map (fun t => flagt (list_val_eqb (delivered_by t tr) (qs t)) TvDataLost) (seq 0 n)
+        ++ (if all_term n fins then flagt (Nat.eqb (count isDT tr) 1) TvNoTerminal else [])).
+Proof. reflexivity. Qed.
+
+Section MergeTheorems.
+  Variable n : nat.
+  Variable qs : nat -> list val.
+  Variable fins : nat -> final.
+  Hypothesis Hn : 1 <= n.
+  Hypothesis amo : at_most_one_err n fins.
+
+  Definition Inv (s : mg_state) : Prop := TI n fins s /\ GE n fins s /\ GI n s /\ TRI n qs s.
+
+  Lemma reach_inv s : mg_reach n qs fins s -> Inv s.
+  Proof.
+    induction 1 as [|s t _ (H1 & H2 & H3 & H4)].
+    - split; [|split; [|split]].
+      + apply TI_init.
+      + apply GE_init.
+      + now apply GI_init.
+      + now apply TRI_init.
+    - pose proof (mstep_of n s t) as Hs. split; [|split; [|split]].
+      + eapply TI_step; eauto.
+      + eapply GE_step; eauto.
+      + eapply GI_step; eauto.
+      + eapply TRI_step; eauto.
+  Qed.
+
+  Lemma ended_lt s : Inv s -> mgs_ended s = true -> mgs_endc s < n.
+  Proof.
+    intros (H1 & H2 & H3 & _) He. destruct (H2 He) as (f & e & Hf & Hfe & _).
+    apply (not_counted_lt H3 Hf). unfold counted, countedc.
+    destruct (H1 f) as (Hfin & _). rewrite Hfin, Hfe. cbn. now rewrite andb_false_r.
+  Qed.
+
+  Lemma endc_le s : Inv s -> mgs_endc s <= n.
+  Proof. intros (_ & _ & H3 & _). rewrite H3. apply cnt_le. Qed.
+
+  (** 1. the sink is greeted at most once, and nothing is delivered before the greeting begins *)
+  Theorem merge_threads_greet_once s :
+    mg_reach n qs fins s ->
+    count is_begin_greet (mgs_tr s) <= 1 /\ before_greet_ok (rev (mgs_tr s)) = true.
+  Proof.
+    intros Hr. destruct (reach_inv Hr) as (_ & _ & _ & [Xgreet Xbgo Xde Xdt Xpanic Xdeliv Xscan Xopen Xseen]). split; auto.
+    rewrite Xgreet. destruct (mgs_start s =? 0); lia.
+  Qed.
+
+  (** 2. at most one terminal message (Terminate or Error) begins at the sink *)
+  Theorem merge_threads_one_terminal s :
+    mg_reach n qs fins s -> count is_begin_term (mgs_tr s) <= 1.
+  Proof.
+    intros Hr. pose proof (reach_inv Hr) as HI. pose proof (ended_lt HI) as Hlt.
+    destruct HI as (_ & _ & _ & [Xgreet Xbgo Xde Xdt Xpanic Xdeliv Xscan Xopen Xseen]).
+    rewrite count_term_split, Xdt, Xde.
+    destruct (mgs_ended s); [|destruct (mgs_endc s =? n); lia].
+    specialize (Hlt eq_refl). destruct (Nat.eqb_spec (mgs_endc s) n); lia.
+  Qed.
+
+  (** 3. each member's data arrive in its own order: nothing forged, nothing twice *)
+  Theorem merge_threads_order s t :
+    mg_reach n qs fins s -> is_prefix (delivered_by t (rev (mgs_tr s))) (qs t) = true.
+  Proof.
+    intros Hr. destruct (reach_inv Hr) as (_ & _ & _ & [Xgreet Xbgo Xde Xdt Xpanic Xdeliv Xscan Xopen Xseen]).
+    rewrite <- (Xdeliv t). apply is_prefix_app.
+  Qed.
+
+  (** what is still to be delivered is exactly the rest of the queue *)
+  Theorem merge_threads_delivered s t :
+    mg_reach n qs fins s -> delivered_by t (rev (mgs_tr s)) ++ mg_q (mgs_th s t) = qs t.
+  Proof. intros Hr. destruct (reach_inv Hr) as (_ & _ & _ & [Xgreet Xbgo Xde Xdt Xpanic Xdeliv Xscan Xopen Xseen]). apply Xdeliv. Qed.
+
+  (** 4. the completion begins when no data delivery is in progress, and no data delivery
+      begins after a terminal message began (the scan reports nothing at all); in state terms:
+      once the end counter is full every member has returned from all its deliveries *)
+  Theorem merge_threads_completion_after_data s :
+    mg_reach n qs fins s ->
+    scan_term (fun _ => false) false (rev (mgs_tr s)) = [] /\
+    (mgs_endc s = n -> forall t, t < n ->
+       mg_pcv (mgs_th s t) = MgInTerm \/ mg_pcv (mgs_th s t) = MgFinished) /\
+    (forall t, scan_open (fun _ => false) (rev (mgs_tr s)) t = true <-> mg_pcv (mgs_th s t) = MgInData).
+  Proof.
+    intros Hr. destruct (reach_inv Hr) as (_ & _ & H3 & [Xgreet Xbgo Xde Xdt Xpanic Xdeliv Xscan Xopen Xseen]). split; [exact Xscan|split].
+    - intros He t Ht. unfold GI in H3. rewrite H3 in He.
+      pose proof (cnt_full _ He Ht) as Hc. unfold counted, countedc in Hc.
+      destruct (mg_pcv (mgs_th s t)); cbn in Hc; auto; discriminate.
+    - intros t. change (fun _ : nat => false) with o0. rewrite Xopen.
+      destruct (mg_pcv (mgs_th s t)); cbn; split; congruence.
+  Qed.
+
+  Corollary merge_threads_no_term_during_data s :
+    mg_reach n qs fins s ->
+    ~ In TvTermDuringData (scan_term (fun _ => false) false (rev (mgs_tr s))).
+  Proof. intros Hr. destruct (merge_threads_completion_after_data Hr) as [-> _]. auto. Qed.
+
+  (** no panic is ever recorded *)
+  Theorem merge_threads_no_panic s :
+    mg_reach n qs fins s -> existsb is_panic (mgs_tr s) = false.
+  Proof. intros Hr. destruct (reach_inv Hr) as (_ & _ & _ & [Xgreet Xbgo Xde Xdt Xpanic Xdeliv Xscan Xopen Xseen]). exact Xpanic. Qed.
+
+  (** threads that are not members are finished from the start *)
+  Lemma merge_threads_finished_ge s t : mg_reach n qs fins s -> n <= t -> mg_finished s t = true.
+  Proof.
+    intros Hr Ht. destruct (reach_inv Hr) as (H1 & _). destruct (H1 t) as (_ & _ & _ & H & _).
+    unfold mg_finished. now rewrite (H Ht).
+  Qed.
+
+  (** 5. the full C18 check on every final state (it is enough that the members are finished) *)
+  Theorem merge_threads_final_n s :
+    mg_reach n qs fins s -> (forall t, t < n -> mg_finished s t = true) ->
+    merge_check n qs fins (rev (mgs_tr s)) = [].
+  Proof.
+    intros Hr Hfin. pose proof (reach_inv Hr) as HI. pose proof (ended_lt HI) as Hlt.
+    pose proof (merge_threads_one_terminal Hr) as Hone.
+    assert (Hpc : forall t, mg_pcv (mgs_th s t) = MgFinished).
+    { intros t. assert (Hf : mg_finished s t = true).
+      { destruct (Nat.lt_ge_cases t n); auto using merge_threads_finished_ge. }
+      unfold mg_finished in Hf. destruct (mg_pcv (mgs_th s t)); congruence. }
+    destruct HI as (H1 & H2 & H3 & [Xgreet Xbgo Xde Xdt Xpanic Xdeliv Xscan Xopen Xseen]).
+    assert (HF : forall t, t < n ->
+              mg_fin (mgs_th s t) = fins t /\ (mgs_stopped s t = true -> mgs_ended s = true) /\
+              1 <= mgs_start s /\ (mgs_ended s = false -> mg_q (mgs_th s t) = []) /\
+              (forall e, fins t = FinErr e -> mgs_ended s = true)).
+    { intros t Ht. pose proof (H1 t) as H. unfold TIc in H. rewrite (Hpc t) in H.
+      destruct H as (Ha & Hb & _ & _ & Hc). destruct (Hc Ht) as (Hd & He & Hf & _).
+      rewrite Ha in Hf. auto. }
+    rewrite merge_check_unfold, !count_rev, existsb_rev.
+    (* greeted exactly once *)
+    assert (Hst : 1 <= mgs_start s) by (destruct (HF 0 Hn) as (_ & _ & H & _); exact H).
+    rewrite Xgreet. destruct (Nat.eqb_spec (mgs_start s) 0) as [|_]; [lia|]. cbn [Nat.eqb flagt app].
+    rewrite Xbgo. cbn [flagt app].
+    destruct (Nat.leb_spec (count is_begin_term (mgs_tr s)) 1); [|lia]. cbn [flagt app].
+    rewrite Xpanic. cbn [negb flagt app].
+    rewrite Xscan. cbn [app].
+    rewrite flat_map_nil.
+    2:{ intros t _. rewrite <- (Xdeliv t), is_prefix_app. reflexivity. }
+    cbn [app].
+    destruct (any_err n fins) eqn:Eany.
+    - (* a member fails: exactly one Error, no Terminate *)
+      apply existsb_exists in Eany. destruct Eany as (f & Hf & He).
+      apply in_seq in Hf. destruct (fins f) as [|e|] eqn:Ef; try discriminate.
+      destruct (HF f) as (_ & _ & _ & _ & Hen); [lia|].
+      specialize (Hen e Ef). specialize (Hlt Hen).
+      rewrite Xde, Xdt, Hen. destruct (Nat.eqb_spec (mgs_endc s) n); [lia|]. reflexivity.
+    - (* nobody fails: everything delivered; all Terminate => exactly one completion *)
+      assert (Hen : mgs_ended s = false).
+      { destruct (mgs_ended s) eqn:E; auto. destruct (H2 E) as (f & e & Hf & He & _).
+        assert (Hx : existsb (fun t => match fins t with FinErr _ => true | _ => false end) (seq 0 n) = true).
+        { apply existsb_exists. exists f. split; [apply in_seq; lia|]. now rewrite He. }
+        unfold any_err in Eany. congruence. }
+      rewrite flat_map_nil.
+      2:{ intros t Ht. apply in_seq in Ht. destruct (HF t) as (_ & _ & _ & Hq & _); [lia|].
+          rewrite <- (Xdeliv t), (Hq Hen), app_nil_r, list_val_eqb_refl. reflexivity. }
+      cbn [app].
+      destruct (all_term n fins) eqn:Eall; [|reflexivity].
+      assert (Hec : mgs_endc s = n).
+      { unfold GI in H3. rewrite H3. apply cnt_all. intros t Ht.
+        unfold counted, countedc. rewrite (Hpc t). cbn.
+        destruct (HF t Ht) as (Ha & Hb & _).
+        unfold all_term in Eall. rewrite forallb_forall in Eall.
+        specialize (Eall t). rewrite Ha.
+        destruct (fins t); try (exfalso; assert (false = true) by (apply Eall; apply in_seq; lia); discriminate).
+        cbn. destruct (mgs_stopped s t); auto. specialize (Hb eq_refl). congruence. }
+      rewrite Xdt, Hec, Nat.eqb_refl. reflexivity.
+  Qed.
+
+  Theorem merge_threads_final s :
+    mg_reach n qs fins s -> (forall t, mg_finished s t = true) ->
+    merge_check n qs fins (rev (mgs_tr s)) = [].
+  Proof. intros Hr Hfin. apply merge_threads_final_n; auto. Qed.
+
+  (** with a failing member (strongest statement; also a consequence of the above) *)
+  Theorem merge_threads_final_err s f e :
+    mg_reach n qs fins s -> (forall t, mg_finished s t = true) ->
+    f < n -> fins f = FinErr e ->
+    count isDE (mgs_tr s) = 1 /\ count isDT (mgs_tr s) = 0 /\ existsb is_panic (mgs_tr s) = false.
+  Proof.
+    intros Hr Hfin Hf He. pose proof (reach_inv Hr) as HI. pose proof (ended_lt HI) as Hlt.
+    destruct HI as (H1 & H2 & H3 & [Xgreet Xbgo Xde Xdt Xpanic Xdeliv Xscan Xopen Xseen]).
+    assert (Hen : mgs_ended s = true).
+    { pose proof (H1 f) as H. unfold TIc in H. specialize (Hfin f). unfold mg_finished in Hfin.
+      destruct (mg_pcv (mgs_th s f)); try discriminate.
+      destruct H as (Ha & _ & _ & _ & Hc). destruct (Hc Hf) as (_ & _ & Hd & _).
+      apply (Hd e). congruence. }
+    specialize (Hlt Hen). rewrite Xde, Xdt, Hen.
+    destruct (Nat.eqb_spec (mgs_endc s) n); [lia|]. auto.
+  Qed.
+End MergeTheorems.
+
+(** ** What the driver runs is reachable *)
+
+Lemma run_sched_reach n qs fins sch : forall s,
+  mg_reach n qs fins s -> mg_reach n qs fins (run_sched (mg_step n) mg_finished sch s).
+Proof.
+  induction sch as [|t sch IH]; intros s Hr; cbn; auto.
+  apply IH. destruct (mg_finished s t); auto. now constructor.
+Qed.
+
+Lemma drain_threads_reach n qs fins nth fuel : forall s,
+  mg_reach n qs fins s -> mg_reach n qs fins (drain_threads (mg_step n) mg_finished nth fuel s).
+Proof.
+  induction fuel as [|fuel IH]; intros s Hr; cbn; auto.
+  destruct (first_unfinished mg_finished nth s); auto. apply IH. now constructor.
+Qed.
+
+Lemma run_full_reach n qs fins nth sch fuel :
+  mg_reach n qs fins (run_full (mg_step n) mg_finished nth sch fuel (mg_init n qs fins)).
+Proof. unfold run_full. apply drain_threads_reach, run_sched_reach. constructor. Qed.
+
+(** the driver's run, when it ends with every member finished, passes the full check *)
+Corollary merge_driver_final n qs fins nth sch fuel :
+  1 <= n -> at_most_one_err n fins ->
+  let s := run_full (mg_step n) mg_finished nth sch fuel (mg_init n qs fins) in
+  (forall t, t < n -> mg_finished s t = true) ->
+  merge_check n qs fins (rev (mgs_tr s)) = [].
+Proof. intros Hn Ha s Hf. apply merge_threads_final_n; auto. apply run_full_reach. Qed.
+
+(** ** Replays *)
+
+(** two failing members: both deliver their Error (so "at most one" is necessary) *)
+Example two_failures_two_errors :
+  let fins := fun t => match t with 0 => FinErr 100 | 1 => FinErr 101 | _ => FinNone end in
+  let s := run_full (mg_step 2) mg_finished 2 [0;0;1;1;0;0;1] 100 (mg_init 2 (fun _ => []) fins) in
+  rev (mgs_tr s) =
+    [(0, TBegin DH); (0, TEnd); (0, TUp 1 UT); (0, TBegin (DE 100));
+     (1, TUp 0 UT); (1, TBegin (DE 101)); (0, TEnd); (1, TEnd)]
+  /\ merge_check 2 (fun _ => []) fins (rev (mgs_tr s)) = [TvSinkTermTwice; TvNoTerminal].
+Proof. vm_compute. split; reflexivity. Qed.
+
+(** one failing member: its Error begins while member 0 is inside a data delivery; member 0
+    is told to stop, returns, and starts nothing further; [merge_check] accepts this *)
+Example error_during_data :
+  let qs := fun t => match t with 0 => [VN 1; VN 3] | _ => [] end in
+  let fins := fun t => match t with 1 => FinErr 101 | _ => FinTerm end in
+  let s := run_full (mg_step 2) mg_finished 2 [0;0;0;1;1;1;0;0;0;0;1] 100 (mg_init 2 qs fins) in
+  rev (mgs_tr s) =
+    [(0, TBegin DH); (0, TEnd); (0, TBegin (DD (VN 1))); (1, TUp 0 UT);
+     (1, TBegin (DE 101)); (0, TEnd); (1, TEnd)]
+  /\ merge_check 2 qs fins (rev (mgs_tr s)) = [].
+Proof. vm_compute. split; reflexivity. Qed.
+
+Print Assumptions merge_threads_greet_once.
+Print Assumptions merge_threads_one_terminal.
+Print Assumptions merge_threads_order.
+Print Assumptions merge_threads_delivered.
+Print Assumptions merge_threads_completion_after_data.
+Print Assumptions merge_threads_no_term_during_data.
+Print Assumptions merge_threads_no_panic.
+Print Assumptions merge_threads_finished_ge.
+Print Assumptions merge_threads_final_n.
+Print Assumptions merge_threads_final.
+Print Assumptions merge_threads_final_err.
+Print Assumptions run_full_reach.
+Print Assumptions merge_driver_final.
